@@ -1458,6 +1458,27 @@ fn recv_shape(shape: &Shape, mode: RecvMode, src: &mut SimSource) -> Result<RVal
     }
 }
 
+/// The property asks for "the same element", not the same coordinates: a
+/// decoder may hand out either representative of the coset as long as it is a
+/// valid one. Exact equality is the fast path.
+fn same_element(got: &Pt, want: &Pt) -> bool {
+    got == want || (rd::equal(got, want) && rd::valid_representative_cheap(got).is_ok())
+}
+
+fn rval_same(got: &RVal, want: &RVal) -> bool {
+    match (got, want) {
+        (RVal::Pt(p), RVal::Pt(q)) => same_element(p, q),
+        (RVal::Int(x, f), RVal::Int(y, g)) => x == y && f == g,
+        (RVal::Vec(x), RVal::Vec(y)) => x.len() == y.len() && x.iter().zip(y).all(|(a, b)| rval_same(a, b)),
+        (RVal::Opt(None), RVal::Opt(None)) => true,
+        (RVal::Opt(Some(x)), RVal::Opt(Some(y))) => rval_same(x, y),
+        (RVal::Tuple(x), RVal::Tuple(y)) => {
+            x.len() == y.len() && x.iter().zip(y).all(|(a, b)| rval_same(a, b))
+        }
+        _ => false,
+    }
+}
+
 fn rval_equiv(a: &RVal, b: &RVal) -> bool {
     match (a, b) {
         (RVal::Pt(p), RVal::Pt(q)) => rd::equal(p, q) && rd::on_curve(p) == rd::on_curve(q),
@@ -1476,7 +1497,7 @@ fn rval_equiv(a: &RVal, b: &RVal) -> bool {
 fn recv_blame(shape: &Shape, got: Option<&RVal>, want: Option<&RVal>) -> &'static str {
     if let (Shape::Tuple(ss), Some(RVal::Tuple(g)), Some(RVal::Tuple(w))) = (shape, got, want) {
         for ((s, a), b) in ss.iter().zip(g).zip(w) {
-            if a != b {
+            if !rval_same(a, b) {
                 return if s.has_elem() { "C02" } else { "C11" };
             }
         }
@@ -1554,7 +1575,7 @@ fn direct_entry_points(ctx: &mut Ctx, w: &[u8; 32]) {
             Ok(Ok(e)) => match &expect {
                 Ok(p) => {
                     let got = bridge::elem_to_pt(&e);
-                    if got.as_ref() != Some(p) {
+                    if !got.as_ref().map(|g| same_element(g, p)).unwrap_or(false) {
                         ctx.viol(
                             "C02",
                             "decode_value",
@@ -1688,7 +1709,7 @@ fn receive_all(ctx: &mut Ctx, run: &IoRun, segs: &[Seg]) -> Vec<Received> {
                 ctx.ev("recv_ok");
                 match &expect {
                     Exp::Ok(want, end) => {
-                        if val != *want {
+                        if !rval_same(&val, want) {
                             let prop = recv_blame(&seg.shape, Some(&val), Some(want));
                             ctx.viol(
                                 prop,
